@@ -431,8 +431,36 @@ func sameNames(r *verifsim.Rng, tag string, probe bool) string {
 	if have("define") {
 		fmt.Fprintf(&b, "define(\"WORLD_CONST\", \"%s-const\");\n", tag)
 	}
+	// same names, different HIERARCHIES: which interface a class implements and which
+	// built-in exception it extends differ between the programs; asked through type
+	// hints (parameter, property, return), catch clauses and json_encode
+	itemPriced := r.Intn(2) == 0
+	errRuntime := r.Intn(2) == 0
+	serIface := r.Intn(2) == 0
+	b.WriteString("interface Priced { }\n")
+	impl := func(on bool, what string) string {
+		if on {
+			return " " + what
+		}
+		return ""
+	}
+	fmt.Fprintf(&b, "class Item%s { public $p = 1; }\n", impl(itemPriced, "implements Priced"))
+	fmt.Fprintf(&b, "class WorldErr extends %s { }\n", map[bool]string{true: "RuntimeException", false: "LogicException"}[errRuntime])
+	fmt.Fprintf(&b, "class Ser%s { public $v = 1; public function jsonSerialize() { return [\"custom\" => \"%s\"]; } }\n", impl(serIface, "implements JsonSerializable"), tag)
+	b.WriteString("class SlotHolder { public Priced $slot; }\n")
+	b.WriteString("function price_of(Priced $p) { return \"accepted\"; }\nfunction ret_priced($x): Priced { return $x; }\n")
+	b.WriteString("function hint_param() { try { return price_of(new Item()); } catch (\\Throwable $e) { return \"rejected\"; } }\n")
+	b.WriteString("function hint_prop() { $h = new SlotHolder(); try { $h->slot = new Item(); return \"accepted\"; } catch (\\Throwable $e) { return \"rejected\"; } }\n")
+	b.WriteString("function hint_ret() { try { ret_priced(new Item()); return \"accepted\"; } catch (\\Throwable $e) { return \"rejected\"; } }\n")
+	b.WriteString("function which_catch() { try { throw new WorldErr(\"x\"); } catch (RuntimeException $e) { return \"runtime\"; } catch (LogicException $e) { return \"logic\"; } }\n")
 	// exercise everything (A warms whatever caches exist; B's lines are the probes)
 	calls := []struct{ label, code string }{
+		{"hint_param", `hint_param()`},
+		{"hint_property", `hint_prop()`},
+		{"hint_return", `hint_ret()`},
+		{"catch_by_parent", `which_catch()`},
+		{"json_serializable", `json_encode(new Ser())`},
+		{"instanceof_iface", `((new Item()) instanceof Priced ? "priced" : "not-priced")`},
 		{"inherited_method", `(new Square())->name()`},
 		{"deep_inherited_method", `(new Tiny())->name()`},
 		{"maybe_missing_method", `(method_exists(new Tiny(), "area") ? (new Tiny())->area() : "no-area")`},
